@@ -152,6 +152,16 @@ func (w *scriptedWriter) Write(p []byte) (int, error) {
 		w.log = append(w.log, []int{len(p), len(p), 0})
 		return len(p), nil
 	}
+	if oc >= 1000 { // accepts only part of the data and reports no error (not what io.Writer asks for, but writers do)
+		n := min(oc-1000, len(p))
+		w.got.Write(p[:n])
+		failed := 0
+		if n < len(p) {
+			failed = 1
+		}
+		w.log = append(w.log, []int{len(p), n, failed})
+		return n, nil
+	}
 	n := min(oc, len(p))
 	w.got.Write(p[:n])
 	w.log = append(w.log, []int{len(p), n, 1})
@@ -178,7 +188,7 @@ func encErrClass(err error) string {
 	switch {
 	case err == nil:
 		return "nil"
-	case errors.Is(err, errWriteFault):
+	case errors.Is(err, errWriteFault), errors.Is(err, io.ErrShortWrite):
 		return "io"
 	case errors.As(err, &se):
 		return "syn"
